@@ -278,6 +278,51 @@ func crImport(root, segs []string, abs bool) tr.Ev {
 	return ev
 }
 
+// crModule loads a module named on the command line: the name is spelled by segs, relative to the root, and ends in
+// `last` (no extension, `.sysl`, or an extension of its own).  The recording file system sits below everything the
+// loader does, also what it does before it confines itself to the root.
+func crModule(root, segs []string, abs bool, last string) tr.Ev {
+	for _, s := range segs {
+		if strings.ContainsAny(s, " \t") {
+			return nil
+		}
+	}
+	name := spell(append(append([]string{}, segs...), last), abs)
+	if strings.HasPrefix(name, "//") || strings.Contains(name, "///") {
+		return nil
+	}
+	full := append(append([]string{}, root...), segs...)
+	dir := crClean(full)
+	mem := afero.NewMemMapFs()
+	for _, f := range []string{last, last + ".sysl"} {
+		_ = afero.WriteFile(mem, "/"+strings.Join(append(append([]string{}, dir...), f), "/"), []byte("Mod:\n    Ep:\n        ...\n"), 0o644)
+	}
+	_ = mem.MkdirAll("/"+strings.Join(root, "/"), 0o755)
+	rec := &recFs{Fs: mem, exec: true}
+	logger := logrus.New()
+	logger.SetOutput(io.Discard)
+	ev := tr.Ev{"e": "mod", "root": root, "segs": segs, "abs": abs, "module": name, "dir": dir}
+	func() {
+		defer func() {
+			if p := recover(); p != nil {
+				ev["panic"] = fmt.Sprint(p)
+			}
+		}()
+		m, _, err := loader.LoadSyslModule("/"+strings.Join(root, "/"), name, rec, logger)
+		ev["ok"] = err == nil
+		if err != nil {
+			ev["err"] = err.Error()
+		}
+		ev["hasmod"] = m.GetApps()["Mod"] != nil
+	}()
+	calls := rec.calls
+	if calls == nil {
+		calls = []crCall{}
+	}
+	ev["calls"] = calls
+	return ev
+}
+
 func runChroot(in, out string, _ []string) error {
 	w, err := tr.NewWriter(out)
 	if err != nil {
@@ -310,6 +355,14 @@ func runChroot(in, out string, _ []string) error {
 					n++
 					ev["t"] = n
 					w.Emit(ev)
+				}
+				// the module argument of the command line, with and without an extension of its own
+				for _, last := range []string{"mod", "mod.sysl", "mod.v2"} {
+					if ev := crModule(sc.Root, sc.Segs, abs, last); ev != nil {
+						n++
+						ev["t"] = n
+						w.Emit(ev)
+					}
 				}
 			}
 		}
